@@ -58,6 +58,8 @@ func init() {
 			obPending(c, "C01.3", r)
 			obPendingScan(c, "C01.3b", r)
 			obReaderUnaltered(c, "C01.3c", r)
+			obCacheOwners(c, "C01.3d", r)
+			obClampGrant(c, "C01.3e", r)
 			obPushBack(c, "C01.7", r)
 			obApplyPostings(c, "C01.4", r)
 			obCacheMergeOnly(c, "C01.8")
